@@ -86,4 +86,19 @@ example : judgeEv [.race "data-race heartbeat_timer_callback"] ≠ [] := by deci
 example : judgeEv [.mt "post" false "delivered=3/4"] ≠ [] := by decide
 example : judgeEv [.hbrace 60 false] ≠ [] := by decide
 
+/-! extension round -/
+-- a clear that leaves the blocked writer asleep (the next event is not `unblocked`)
+example : judgeEv [.qnew 1 8 2 true, .enq ⟨1, 1, 8⟩ .ok, .enq ⟨2, 7, 8⟩ .blocked, .qclear, .qstat 0 1 0 0 0 0 true false] ≠ [] := by decide
+-- …the accepted behaviour
+example : judgeEv [.qnew 1 8 2 true, .enq ⟨1, 1, 8⟩ .ok, .enq ⟨2, 7, 8⟩ .blocked, .qclear, .unblocked 2 7,
+                   .qstat 1 2 0 0 0 0 false true] = [] := by decide
+-- the poll back end as it was: a wake-up byte garbles the next completion; records beyond max are thrown away
+example : judgeEv [.wakeup 0, .post 1 4097 7 0, .wait 8 [(1048832, 1793)], .wait 8 []] ≠ [] := by decide
+example : judgeEv [.post 1 1 1 0, .post 2 2 2 0, .post 1 3 3 0, .wait 1 [(1, 1)], .wait 1 []] ≠ [] := by decide
+-- the clear of call_heart_beat wiped a tick that arrived inside it
+example : judgeEv [.hbowed false] ≠ [] := by decide
+-- verdict lines of the real multi-thread runs
+example : judgeEv [.mt "qclear" false "writers-left-asleep-after-clear clears=1"] ≠ [] := by decide
+example : judgeEv [.mt "console" false "shutdown-timed-out"] ≠ [] := by decide
+
 end NV.C19.Negative
